@@ -149,6 +149,21 @@ def _replay(job):
             return {"src": xa, "idx": m, "ret": x, "n_in": len(xa)}
         attempt("get_downsampled_scatter", scatter,
                 [e + 1 for e in case["eligible"]], case["required"])
+        # after reset_filter() every event is eligible at once (the filter
+        # arrays are all-True again), whatever was requested before
+        try:
+            ds.reset_filter()
+            xr, yr, mr = ds.get_downsampled_scatter(
+                xax="area_um", yax="deform", downsample=0,
+                remove_invalid=False, ret_mask=True)
+            if not (np.all(ds.filter.all) and np.all(mr) and len(mr) == len(xa)
+                    and np.array_equal(xr, xa, equal_nan=True)):
+                out.append(("get_downsampled_scatter after reset_filter: "
+                            "not all events are returned",
+                            "%d of %d" % (int(np.sum(mr)), len(xa))))
+        except Exception as exc:
+            out.append(("get_downsampled_scatter after reset_filter raises "
+                        + type(exc).__name__, repr(exc)[:100]))
         # log scale: points that are finite but not positive are invalid
         # on a logarithmic axis (same abstract validity pattern)
         xl = xa.copy()
